@@ -113,6 +113,7 @@ def drive_hop(kind, c, rng):
         tr.delP[:, c["target"], c["target"]] = shift                      # direction = Re(delP_ss - delP_tt): only the difference matters
         tr.delP[:, c["state"], c["state"]] = shift + np.array(c["dir"]) * tiny
         c = dict(c); c["dir"] = np.real(tr.delP[:, c["state"], c["state"]] - tr.delP[:, c["target"], c["target"]]).tolist()   # as rounded by the subtraction
+    tr.last_velocity = np.array([rng.gauss(0, 1) for _ in range(ndim)]) * float(np.linalg.norm(tr.velocity) + 1e-3)   # mid-run: the previous step's velocity is unrelated to the decision
     x_before = tr.position.copy()
     mom_before = (tr.delR.copy(), tr.delP.copy()) if kind == "afssh" else None
     if kind == "afssh" and c["kind"] not in ("exact-tie", "orthogonal-down"):
@@ -122,12 +123,18 @@ def drive_hop(kind, c, rng):
         from mudslide.cumulative_sh import TrajectoryCum
         hop["stack"] = tr.spawn_stack.__class__(None, 1.0)
         tr.spawn_stack.last_stack = tr.spawn_stack.sample_stack[0]
-        tr.hop_to_it([hop], elec)
+        try:
+            tr.hop_to_it([hop], elec)
+        except Exception as ex:
+            return c, dict(raised="%s: %s" % (type(ex).__name__, ex), state=int(tr.state), v=tr.velocity.tolist(), accepted=False)
         child = tr.queue.get()
         parent_unchanged = (tr.state == c["state"] and np.array_equal(tr.velocity, np.array(c["v"])) and np.array_equal(tr.position, x_before))
         obs_tr = child
     else:
-        tr.hop_to_it([hop], elec)
+        try:
+            tr.hop_to_it([hop], elec)
+        except Exception as ex:
+            return c, dict(raised="%s: %s" % (type(ex).__name__, ex), state=int(tr.state), v=tr.velocity.tolist(), accepted=bool(tr.state == c["target"]))
         parent_unchanged = True
         obs_tr = tr
     accepted = (obs_tr.state == c["target"])
@@ -141,6 +148,8 @@ def drive_hop(kind, c, rng):
 
 def hop_oracle(c, o):
     """Direct statement of C01/C04 (hop level) on the implementation. Returns failed clause or None."""
+    if o.get("raised"):
+        return "hop_to_it raised %s for a legal attempt (a hop that the energy criterion forbids must be rejected, not attempted)" % o["raised"]
     m = np.array(c["mass"]); v0 = np.array(c["v"]); v1 = np.array(o["v"])
     gap = c["en"][c["target"]] - c["en"][c["state"]]
     u = np.array(c["dir"]) / np.linalg.norm(c["dir"])
